@@ -127,8 +127,52 @@ func c04Fill(r *core.Rng, T ref.ID, dh, dv int64, mode int) []ref.ID {
 	return out
 }
 
+// c04History: three merges in a row that share a voxel divided into 32768 unit cells (zoom spread 5): A = [c0, fine],
+// B = all eight children of c0's parent + fine, A again. Each is judged by the oracle; a cache of unit-cell sets that is
+// corrupted by B shows in the second A.
+func c04History(c *core.Case) {
+	r := c.R
+	H, V := r.Range(0, 28), r.Range(0, 28)
+	T := genID(r, H, H, V, V)
+	if r.Bool() {
+		T.F = clampI([]int64{-1, 0}[r.Intn(2)], -pow2(V), pow2(V)-1)
+	}
+	kids := ref.ChangeOne(T, H+1, V+1)
+	c0 := kids[r.Intn(8)]
+	fine := descendant(r, c0, H+6, V+6)
+	A := []ref.ID{c0, fine}
+	B := append(append([]ref.ID{}, kids...), fine)
+	c.Tag("history-shared-voxel-spread-5")
+	c.NonTrivial()
+	c.KS(T.Ext(), c0.Ext(), fine.Ext())
+	var obs []string
+	c.Desc = func() any {
+		return map[string]any{"scenario": "A,B,A merges sharing a voxel divided into 32768 cells", "target": T.Ext(), "c0": c0.Ext(), "fine": fine.Ext(), "observed": obs}
+	}
+	for k, ids := range [][]ref.ID{A, B, A} {
+		in := ref.Exts(ids)
+		got, err := integrate.MergeExtendedSpatialIds(in, H, V)
+		c.Call()
+		if err != nil {
+			c.Fail("merge-error", nil, "merge %d of the A,B,A history returned %v", k+1, err)
+			return
+		}
+		want, _, _ := c04Expect(ids, H, V)
+		gs, dup := ref.SetOfExt(got)
+		obs = append(obs, fmt.Sprintf("call %d: %d inputs -> %v", k+1, len(in), trunc(got, 6)))
+		if missing, extra, same := ref.SameSet(gs, want); !same || dup {
+			c.Fail("merge-set-history", nil, "merge %d of the history A=[c0,fine], B=[8 children + fine], A at targets (%d,%d) with c0=%s fine=%s: missing %v, unexpected %v, duplicates %v", k+1, H, V, c0.Ext(), fine.Ext(), missing, extra, dup)
+			return
+		}
+	}
+}
+
 func runC04(c *core.Case) {
 	r := c.R
+	if c.I >= c04Directed && r.P(0.0015) {
+		c04History(c)
+		return
+	}
 	var ids []ref.ID
 	var H, V int64
 	spatial := false
